@@ -536,3 +536,10 @@ sub('algorithm/svd/svd.go','''        if B.At(k,k).GetFloat64() == 0.0 {
           t = false
           zeroRow(B, U, V, k, inSitu)
         }''')
+# --- batch R rules
+sub('algorithm/newton/newton.go','''      if Vequals(x1, x2) {
+        return x1, fmt.Errorf("line search failed")
+      }''','''      if unchanged := Vequals(x1, x2); unchanged {
+        err := fmt.Errorf("line search failed")
+        return x1, err
+      }''')
